@@ -387,7 +387,7 @@ def replay18(ctx, rp, std=False):
     else:
         fs, known = pe.check_case18(cid, spec[cid], out, accept=tuple(rp.get("accept", ("p8",))), shuttle=not std)
         fs = [f for f in fs if f["kind"] != "unwound"]
-        fs = [f for f in fs if f["kind"] != "values" or f["detail"]["revision"] == 0 or rp.get("os_threads")
+        fs = [f for f in fs if f["kind"] != "values" or f["detail"]["revision"] == 0
               or not linearisation_known(case, harness, f, rp.get("harness_seed", 1))]
     print(f"case {cid}: {len(out.get(cid, {}).get('iters', []))} schedules re-run, findings: {len(fs)}, "
           f"differences of the known single-threaded classes: {len(known)}")
